@@ -116,3 +116,27 @@ def assign (kids : List Child) (new : List Nat) : List Child :=
   assignLoop (kids.filter (fun c => !c.2 || new.contains c.1)) 0 new
 
 end Capella.CoupledList
+
+namespace Capella.CoupledList
+
+/-- a child element as a link-element relation sees it: identity, XML tag, xsi:type, target -/
+structure LinkKid where
+  nid : Nat
+  tag : String
+  xt : String
+  target : Nat
+deriving DecidableEq, Repr
+
+/-- `LinkAccessor.__find_refs`: children with the relation's tag (any tag when none is configured)
+whose xsi:type is one of the relation's types -/
+def isRef (tag : Option String) (xts : List String) (k : LinkKid) : Bool :=
+  (match tag with | some t => k.tag == t | none => true) && xts.contains k.xt
+
+def linkTargets (tag : Option String) (xts : List String) (kids : List LinkKid) : List Nat :=
+  (kids.filter (isRef tag xts)).map (·.target)
+
+/-- `LinkAccessor.__delete__`: remove exactly the relation's own link elements -/
+def linkClear (tag : Option String) (xts : List String) (kids : List LinkKid) : List LinkKid :=
+  kids.filter (fun k => !isRef tag xts k)
+
+end Capella.CoupledList
